@@ -8,6 +8,7 @@ Not decided: _grouped_ys, raw_learners, moving_average values.
 import ast
 
 from ..model import walk_shallow, call_name, is_self_attr, dotted_name, parent, ancestors, enclosing_function, rename_copy
+from ..util import canon
 from ..util import (has_call, find_calls, assigned_value, const_str, unparse, kw, arg_or_kw, enclosing_stmt,
                     guards_of, call_tail, control_ancestors)
 from .. import mutate as M
@@ -164,6 +165,34 @@ def r1_narrowing(ctx):
                             ctx.ob("C18.R1", RES, f"Result.{mname}", c, f"the id set for {tbl} is the {ORDER.index(OWN[tbl]) + 1}. component of the kept (env,lrn,val) triples",
                                    pos == ORDER.index(OWN[tbl]), detail={"variable": k.value.id, "position": pos}, stmt=f"{k.value.id} position for {tbl}")
     ctx.floor("C18.R1", "parameter-table narrowings by id", n, 6)
+    # a narrowing is skipped when "nothing was removed": that test must count DISTINCT ids (one id takes part in many kept evaluations)
+    m = 0
+    for mname, fn0 in sorted(cls.methods.items()):
+        for st in [x for x in ast.walk(fn0) if isinstance(x, ast.If) and isinstance(x.test, ast.Compare) and len(x.test.ops) == 1 and isinstance(x.test.ops[0], ast.NotEq)]:
+            sides = [x_ for x_ in (st.test.left, st.test.comparators[0]) if isinstance(x_, ast.Call) and call_name(x_) == "len" and x_.args]
+            if len(sides) != 2 or not any(isinstance(b, ast.Assign) and ".where(" in unparse(b.value) for b in st.body):
+                continue
+            ids = [a.args[0] for a in sides if isinstance(a.args[0], ast.Name) and _table_of(a.args[0]) is None]
+            for a in ids:
+                m += 1
+                defs = []
+                for x in walk_shallow(fn0):
+                    if isinstance(x, ast.Assign):
+                        for t in x.targets:
+                            if isinstance(t, ast.Name) and t.id == a.id:
+                                defs.append(x.value)
+                            elif isinstance(t, ast.Tuple) and any(isinstance(e, ast.Name) and e.id == a.id for e in t.elts):
+                                defs.append(x.value)
+
+                def setlike(v):
+                    if isinstance(v, ast.IfExp):
+                        return setlike(v.body)
+                    u = unparse(v)
+                    return isinstance(v, (ast.Set, ast.SetComp)) or u.startswith(("set(", "map(set,", "frozenset(")) or (isinstance(v, ast.BinOp) and isinstance(v.op, (ast.BitAnd, ast.BitOr, ast.Sub)))
+                ok = bool(defs) and all(setlike(v) for v in defs)
+                ctx.ob("C18.R1", RES, f"Result.{mname}", st, f"the narrowing of a parameter table is skipped only when the number of DISTINCT kept ids ({a.id}) equals the table's size", ok,
+                       detail={"definitions": [unparse(v)[:70] for v in defs]}, stmt=f"distinct ids: {a.id}")
+    ctx.floor("C18.R1", "skip tests of parameter-table narrowings", m, 6)
     # the kept triples are (env,lrn,val): _group_p asks _grouped_ys for the ids in that order and slices them out
     gp = _fn(ctx, "Result._group_p")
     calls = [c for c in walk_shallow(gp) if isinstance(c, ast.Call) and call_tail(c) == "_grouped_ys"]
@@ -425,9 +454,25 @@ def r9_always_filtered(ctx, rule="C18.R9"):
         # the arguments of the call are this call's parameters (or derived from them), not stale state
         params = {a.arg for a in fn.args.args} | {a.arg for a in fn.args.kwonlyargs}
         for c in [c for c in ast.walk(fn) if isinstance(c, ast.Call) and isinstance(c.func, ast.Attribute) and is_self_attr(c.func, callee)]:
-            names = {y.id for a in list(c.args) + [k.value for k in c.keywords] for y in ast.walk(a) if isinstance(y, ast.Name)}
+            import builtins as _b
+            names = {y.id for a in list(c.args) + [k.value for k in c.keywords] for y in ast.walk(a) if isinstance(y, ast.Name) and not hasattr(_b, y.id)}
             n += 1
             ctx.ob(rule, RES, f"Result.{mname}", c, "the call is made with this call's parameters", bool(names) and names <= params and not any(is_self_attr(y) for a in c.args for y in ast.walk(a)))
+    # x == 'index' selects the equal-length comparison: both spellings the plotting code accepts ('index' and ['index']) must select it
+    fin = cls.methods["_finished"]
+    X = fin.args.args[1].arg
+    sel = [e for e in ast.walk(fin) if isinstance(e, ast.IfExp) and const_str(e.body) == "min"]
+    for e in sel:
+        t = unparse(e.test)
+        both = canon(f"{X} == 'index'") in canon(t) and ("['index']" in t or "('index',)" in t or f"'index' in {X}" in t or f"{X}[0]" in t)
+        ctx.ob(rule, RES, "Result._finished", e, "the equal-length rule ('min') is chosen for x given as 'index' and as the one item list ['index']", both, stmt="index spelled as list")
+    # documented defaults are applied before the value is used: where_best/filter_best's p "defaults to full_p"
+    fb = cls.methods["filter_best"]
+    uses = [c for c in ast.walk(fb) if isinstance(c, ast.Call) and call_tail(c) == "_grouped_ys"]
+    dflt = [st for st in fb.body if isinstance(st, ast.If) and canon(unparse(st.test)) == canon("p is None") and any(isinstance(b, ast.Assign) and unparse(b.targets[0]) == "p" and unparse(b.value) == "full_p" for b in st.body)]
+    sig_none = any(a.arg == "p" for a in cls.methods["where_best"].args.args) and any(isinstance(d, ast.Constant) and d.value is None for d in cls.methods["where_best"].args.defaults)
+    ctx.ob(rule, RES, "Result.filter_best", (dflt or [fb])[0], "a pairing column of None (where_best's default) is replaced by full_p before the groups are formed", (not sig_none) or (bool(dflt) and bool(uses) and dflt[0].lineno < uses[0].lineno),
+           stmt="where_best default p")
     m = 0
     for name, fn in sorted(cls.methods.items()):
         if name in ("__init__", "set_plotter", "copy"):
@@ -441,6 +486,9 @@ def r9_always_filtered(ctx, rule="C18.R9"):
 
 
 CONTROLS = [
+    ("where_best passes its None on", RES, M.delete_stmt("Result.filter_best", M.text_has("if p is None")), "C18.R9"),
+    ("['index'] is not the index", RES, M.replace_expr("Result._finished", "x == 'index' or list(x) == ['index']", "x == 'index'"), "C18.R9"),
+    ("filter_int counts kept evaluations instead of ids", RES, M.replace_expr("Result.filter_int", "map(set, zip(*to_keep)) if to_keep else (set(), set(), set())", "zip(*to_keep) if to_keep else ([], [], [])"), "C18.R1"),
     ("complete grids skip the pairing filter", RES, M.insert_before("Result.filter_fin", M.text_has("result = self._filter_fin(n, l, p)"),
         "if not n and len(self.interactions) == len(self.environments) * len(self.learners): return self"), "C18.R9"),
     ("finished results memoised by (l, p)", RES, M.chain(M.insert_after("Result.__init__", M.text_has("self._plotter ="), "self._fin = {}"),
